@@ -14,13 +14,21 @@ CHECKS = {
         "every argument, for all calls of the model: the 23 calls that do not go through the directory walker, makedirs, copydir and "
         "movedir (fast path and directory merges; non-degenerate source/destination, NUL-free names as invariant); "
         "well-formedness is an invariant. The SubFS model (any nesting depth) and WrapFS over it refine the reference on the "
-        "sub-tree and change nothing outside it. " + CORR + "Real MemoryFS and SubFS(MemoryFS) are compared with their models "
+        "sub-tree and change nothing outside it. The OSFS model (FS/Osfs.v: OSFS's methods and the inherited defaults over a POSIX "
+        "kernel model FS/Posix.v with Linux's errno choices, wrapped in convert_os_errors) refines the reference for the 23 non-"
+        "walker calls and makedirs (up to modification times; exactly where the kernel does not stamp), preserves well-"
+        "formedness, and gives the same verdict as the MemoryFS model; a MultiFS with one (write) member refines that member. "
+        + CORR + "Real OSFS vs the OSFS model step by step (generated + directed histories: call kind x 13 path classes x 19 "
+        "modes) and the model's 419 recorded kernel answers vs the live kernel. Real MemoryFS and SubFS(MemoryFS) are compared "
+        "with their models "
         "step by step (outcome and exact entry order, incl. the parent outside the sub-directory); every other backend/composition "
         "(OSFS, TempFS, WrapFS kinds, MountFS, MultiFS, write-mode Zip/Tar) is compared with the reference step by step from "
         "the backend's own pre-state (correspondence only).",
-   note=TB + "Modelled not verified: CPython str/OrderedDict semantics, the Linux kernel behind OSFS, archives' temp filesystems. "
+   note=TB + "Modelled not verified: CPython str/OrderedDict semantics, the Linux kernel (FS/Posix.v: no permissions, links or "
+        "concurrency; answers re-checked per run), archives' temp filesystems; copydir/movedir on OSFS tied but not proved. "
         "Degenerate merges (destination an ancestor of the source) and FTPFS: not proved; FTPFS not exercised (needs a server).",
-   technique="Coq refinement proof (Mem model vs reference) + extracted-model/real-code differential on 13 backends",
+   technique="Coq refinement proofs (MemoryFS, SubFS/WrapFS, OSFS-over-kernel-model, one-member MultiFS vs reference) + "
+             "extracted-model/real-code step-by-step ties + reference differential on 13 backends",
    ref="DESIGN.md §4 C01, §9"),
  "C04": dict(
    text="Theorems on the read-only wrapper model (FS/ReadOnly.v: every mutating call, and open with a writable mode, raises "
@@ -135,14 +143,20 @@ CHECKS = {
    text="Theorems: MountFS's string-prefix test on forcedir'ed keys is the whole-component prefix test; _delegate = first mount in "
         "mount order whose point is a component prefix, path made relative ('/ab' never routed to '/a'); a mount inside an "
         "existing mount is refused; MultiFS's iterate order is the members sorted by (priority, insertion index) descending "
-        "(permutation, sortedness, head characterisation), reads go to the first holder, listings are de-duplicated unions. " + CORR +
+        "(permutation, sortedness, head characterisation), reads go to the first holder, listings are de-duplicated unions. State "
+        "models of MultiFS and MountFS over the MemoryFS model (65 theorems): reads = highest-priority holder = reference on the "
+        "merged union tree, writes touch at most the write member (frame for every call and outcome), ResourceReadOnly without a "
+        "write member, deviations (no copy-up) stated exactly; MountFS single-path calls = the routed member's call on the "
+        "relative path, frame for all other members, mount points named as listed, copy/move within and across members. " + CORR +
+        "Real MultiFS/MountFS over MemoryFS members vs the models call by call (outcome, every member tree, routed path). "
         "Recording proxy members: call logs and member trees vs the extracted routing model; 15 spelling classes of the mount-"
         "point argument x 15 of the call path x overlap shapes (routed member must receive the call, others untouched); MultiFS: "
         "every public method by reflection x member states (path/ancestors only in the write member, only in a non-write member, "
         "in both, nowhere) for 2 and 3 members against the union and the write member's twin.",
    note=TB + "Member filesystems are MemoryFS behind recording WrapFS proxies; derived calls may touch every member their paths "
         "route to.",
-   technique="Coq proof (prefix/sorting lemmas) + recording-proxy correspondence",
+   technique="Coq proof (prefix/sorting lemmas; state models of the composites over the proved MemoryFS model) + model/real "
+             "call-by-call tie + recording-proxy correspondence",
    ref="DESIGN.md §4 C17, §9"),
  "C18": dict(
    text="Theorems on the close model: a checked method of a closed object raises FilesystemClosed at any nesting depth; a write-"
